@@ -507,6 +507,68 @@ func ruleAllocBounded(c *Ctx, pkg string, needSliceParam bool) {
 					}
 				}
 				if len(bare) == 0 {
+					// a size computed from a length plus a count (a rounded-up quotient (len+n-1)/n): the sum overflows
+					// for counts near the largest integer unless the count has been bounded first
+					var adds, phiUnbounded []*ssa.Parameter
+					var walkSz func(v ssa.Value, d int)
+					walkSz = func(v ssa.Value, d int) {
+						if d > 5 {
+							return
+						}
+						bo, ok := v.(*ssa.BinOp)
+						if !ok {
+							return
+						}
+						if bo.Op == token.ADD {
+							var hasLen bool
+							var cnt *ssa.Parameter
+							for _, o := range []ssa.Value{bo.X, bo.Y} {
+								if _, isLen := isBuiltinCall(o, "len"); isLen {
+									hasLen = true
+								}
+								if p := isParam(o); p != nil && isIntType(p.Type()) {
+									cnt = p
+								}
+								// the count normalised on one branch (n == 0 ⇒ n = len(vs)) and passed through on the other
+								if ph, ok := o.(*ssa.Phi); ok {
+									for i, e := range ph.Edges {
+										if p := isParam(e); p != nil && isIntType(p.Type()) {
+											pred := ph.Block().Preds[i]
+											var extra *Cmp
+											if iff, ok := pred.Instrs[len(pred.Instrs)-1].(*ssa.If); ok {
+												idx := 0
+												if pred.Succs[1] == ph.Block() {
+													idx = 1
+												}
+												if cm, ok := edgeCmp(iff, idx); ok {
+													extra = &cm
+												}
+											}
+											if !bounded(p, pred, extra) {
+												phiUnbounded = append(phiUnbounded, p)
+											}
+										}
+									}
+								}
+							}
+							if hasLen && cnt != nil {
+								adds = append(adds, cnt)
+							}
+						}
+						walkSz(bo.X, d+1)
+						walkSz(bo.Y, d+1)
+					}
+					walkSz(sz, 0)
+					for _, p := range phiUnbounded {
+						n++
+						c.sawFn(fnName(fn))
+						c.bad("R-ALLOC-BOUNDED", fmt.Sprintf("%s:size computed from len + %s #%d", fnName(fn), p.Name(), n), mk.Pos(), fmt.Sprintf("the allocation size is computed from len(…) + %s, and %s reaches the sum as passed in on some path: for a count near the largest integer the sum wraps around, the size comes out negative and make panics — for an argument the documentation allows", p.Name(), p.Name()))
+					}
+					for _, p := range adds {
+						n++
+						c.sawFn(fnName(fn))
+						c.judge(bounded(p, mk.Block(), nil), "R-ALLOC-BOUNDED", fmt.Sprintf("%s:size computed from len + %s #%d", fnName(fn), p.Name(), n), mk.Pos(), "the count is bounded by a length before it enters the sum", fmt.Sprintf("the allocation size is computed from len(…) + %s with %s as passed in: for a count near the largest integer the sum wraps around, the size comes out negative and make panics — for an argument the documentation allows", p.Name(), p.Name()))
+					}
 					continue
 				}
 				n++
